@@ -5,6 +5,7 @@
    moment the director chooses.  The set of live handles is modelled as the code keeps it (added
    on spawn, removed when the task wrapper exits), not derived.  Used by C09.  Definitions only. *)
 From Coq Require Import List Bool Arith.
+From Asphalt Require Import Gen.Gen_taskfactory.
 Import ListNotations.
 
 Inductive ending :=
@@ -89,9 +90,15 @@ Inductive gate :=
 | GCancel (k : nat)
 | GTeardown.
 
+(* a spawn that fails (the factory's task group is gone): the handle was added BEFORE the spawn; whether it is
+   taken out again is read from start_task / start_task_soon on this run (Gen/Gen_taskfactory.v) *)
+Definition failed_spawn (s : st) (b : beh) : st * list obs :=
+  if tf_start_task_discards_on_failure && tf_start_task_soon_discards_on_failure then (s, [SpawnFailed])
+  else (St (tasks s ++ [(b, TEnded)]) (handles s ++ [length (tasks s)]) (ph s), [SpawnFailed]).
+
 Definition fire (verdict : option bool) (s : st) (g : gate) : st * list obs :=
   match ph s with
-  | Crashed _ => match g with GSpawn _ => (s, [SpawnFailed]) | _ => (s, []) end
+  | Crashed _ => match g with GSpawn b => failed_spawn s b | _ => (s, []) end
   | _ =>
   match g with
   | GSpawn b =>
@@ -105,7 +112,7 @@ Definition fire (verdict : option bool) (s : st) (g : gate) : st * list obs :=
                  let '(s3, o') := maybe_close s2 in (s3, Spawned k true :: o ++ o')
           | _ => (s1, [Spawned k true])
           end
-      | _ => (s, [SpawnFailed])
+      | _ => failed_spawn s b
       end
   | GTask k =>
       match nth_error (tasks s) k with
